@@ -273,3 +273,15 @@ package main
 //@   mode permissive
 //@   thread any
 //@   callees [C16] newSnapshotRecording, Active, NextStart, NextEnd, Until, Sleep, Add
+
+// Housekeeping of the continuous recordings: while less than 30 % of the disk is free,
+// the first (oldest, the names sort by time) recording of this directory - and nothing
+// else - is removed.
+//@ func deleteExcessRecordings
+//@   mode permissive
+//@   callees [C10,C17] Statfs, Glob, Remove, Join
+//@   call Statfs#1 given_after fs.Blocks > 0
+//@   call Glob#1 assert [C10,C17] $0 == siteres("Join", 1)
+//@   call Join#1 assert [C10,C17] len($0) == 2 && $0[0] == dir && $0[1] == "*.cptv*"
+//@   call Remove#1 assert [C10,C17] len(matches) >= 1 && $0 == matches[0]
+//@   loop 1 invariant ncalls("Remove") >= 0
